@@ -321,6 +321,37 @@ def w_explicit_fs(ctx, rng, i):
     ctx.bin("fs_argument_ratio", ratio)
 
 
+def w_huge(ctx, rng, i):
+    """records of millions of samples with an odd count (beyond any internal switch to a block- or FFT-based path): length, layout and
+    noise presence preserved (postconditions), a constant passes unchanged, the tone at the cutoff loses 6 dB."""
+    fs = set_fs(rng)
+    which = "lpf" if i % 2 == 0 else "bpf"
+    N = int([2 ** 22 + 1, 2 ** 21 + 3, 2 ** 23 + 1, 2 ** 22 + 2][(i // 2) % (2 if ctx.tier == "quick" else 4)])
+    order = int(rng.integers(1, 9))
+    frac = float(rng.uniform(0.02, 0.4))
+    n = np.arange(N)
+    ctx.describe(which=which, N=N, order=order, cut_over_fs=frac, fs=fs)
+    mid = slice(N // 4, 3 * N // 4)
+    with core.quiet():
+        if which == "lpf":
+            tone = np.cos(2 * np.pi * frac * n)
+            y = D.LPF(T.electrical_signal(tone, np.ones(N)), frac * fs, order)        # the noise component is a constant: must pass unchanged
+            ok_len = y.signal.shape == (N,) and y.noise is not None and y.noise.shape == (N,)
+            att = 10 * np.log10(np.mean(y.signal[mid] ** 2) / 0.5) if ok_len else np.nan
+            const_dev = float(np.max(np.abs(y.noise[mid] - 1.0))) if ok_len else np.nan
+        else:
+            tone = np.exp(2j * np.pi * frac * n)
+            y = D.BPF(T.optical_signal(tone, np.ones(N, complex)), 2 * frac * fs, order)
+            ok_len = y.signal.shape == (N,) and y.noise is not None and y.noise.shape == (N,)
+            att = 10 * np.log10(np.mean(np.abs(y.signal[mid]) ** 2)) if ok_len else np.nan
+            const_dev = float(np.max(np.abs(y.noise[mid] - 1.0))) if ok_len else np.nan
+    ctx.check("huge.length", ok_len, f"{which} of a record of {N} samples returned signal {getattr(y.signal, 'shape', None)} / noise {getattr(y.noise, 'shape', None)}")
+    if ok_len:
+        ctx.check("cutoff", abs(att + 6.0206) <= 0.05, f"{which} order {order} on {N} samples: tone at the cutoff attenuated by {-att:.3f} dB, expected 6.0 dB")
+        ctx.check("dc_gain", const_dev <= 1e-6, f"{which} on {N} samples: a constant component does not pass unchanged (max dev {const_dev:.3g})")
+    ctx.case(("huge", which, N, order), sample=dict(which=which, N=N, order=order) if i < 2 else None)
+
+
 def w_errors(ctx, rng, i):
     with core.quiet():
         ctx.raises("errors", TypeError, D.BPF, T.electrical_signal(np.ones(40)), 1e9)
@@ -340,6 +371,7 @@ WORKLOADS = [
     Workload("fs_change", w_fs_change, 60, 3000),
     Workload("errors", w_errors, 2, 10),
     Workload("explicit_fs", w_explicit_fs, 160, 8000),
+    Workload("huge", w_huge, 4, 16, budget=600),
 ]
 
 
